@@ -1,6 +1,7 @@
 #!/bin/bash
 # Runs the repository's pinned test suite (parallel, for my own validation) and compares with BASELINE.json stable_pass.
 OUT=${1:-/tmp/vp_baseline.xml}
+export OMP_NUM_THREADS=${OMP_NUM_THREADS:-1} MKL_NUM_THREADS=${MKL_NUM_THREADS:-1}  # 12 xdist workers x 16 torch threads drove the load to 140
 cd /repo && /venv/bin/python -m pytest -q -p no:cacheprovider --timeout=900 --continue-on-collection-errors -n ${JOBS:-12} --junitxml=$OUT > /tmp/vp_baseline.log 2>&1
 /venv/bin/python - $OUT <<'PY'
 import json, sys, xml.etree.ElementTree as ET
